@@ -38,6 +38,7 @@ pub enum Wl {
     W12,
     /// a burst of datagrams near the largest size a 1452-byte path takes, then small ones
     W13,
+    W14,
 }
 
 pub fn plans(w: Wl, read: ReadMode) -> (Plan, Plan) {
@@ -87,6 +88,12 @@ pub fn plans(w: Wl, read: ReadMode) -> (Plan, Plan) {
             c.streams = vec![uni(3000, 1000)];
             c.datagrams = vec![1400; 44];
             c.datagrams.extend([100, 60, 1100]);
+        }
+        Wl::W14 => {
+            // datagrams of which two never share a packet: a small frame in front of one leaves a
+            // packet well below 1200 bytes with more datagrams waiting
+            c.streams = vec![uni(3000, 1000)];
+            c.datagrams = vec![720; 30];
         }
         Wl::W10 => {
             c.streams = vec![uni(40_000, 4000)];
@@ -597,6 +604,7 @@ pub fn wl_from_str(s: &str) -> Wl {
         "W11" => Wl::W11,
         "W12" => Wl::W12,
         "W13" => Wl::W13,
+        "W14" => Wl::W14,
         _ => crate::report::machinery(&format!("unknown workload {s}")),
     }
 }
